@@ -68,6 +68,9 @@ const UG0S: &str = "input: q/0. input: s/0. output: p/0. assumption: q or s.";
 const UG1: &str = "input: q/1. output: p/1.";
 const UG1A: &str = "input: q/1. output: p/1. assumption: forall X (q(X) -> X = 0 or X = 1).";
 
+/// several output predicates that occur in no rule of a program (each gets an empty definition; their order is the user guide's)
+const UG0M: &str = "input: q/0. output: p/0. output: s/0. output: u/0. output: v/0. output: w/0.";
+const P0M: &[&str] = &["p :- q.", "p :- q. s :- p.", "p :- t. t :- q. u :- not q.", "", "{p} :- q. v :- p, not q.", "p :- q. s. w :- s, q."];
 const UGN: &str = "input: q/1. input: n -> integer. output: p/1.";
 const UGC: &str = "input: q/1. input: c -> symbol. input: d -> general. output: p/1. assumption: c != d.";
 const PN: &[&str] = &["p(X) :- q(X), X != n.", "p(X) :- q(X), not t(X). t(n).", "p(X) :- q(X), X < n.", "p(X) :- q(X), X <= n, X != n.", "p(n) :- q(n).", "p(X) :- q(X), X > n - 1."];
@@ -133,7 +136,7 @@ pub fn cases(deep: bool) -> Vec<(Case, Vec<&'static [&'static str]>)> {
     let mut out = Vec::new();
     let mut k = 0usize;
     let flags_for = |k: usize| -> Vec<&'static [&'static str]> { if deep { FLAGS.to_vec() } else { vec![FLAGS[0], FLAGS[1 + k % (FLAGS.len() - 1)], FLAGS[1 + (k / 2 + 3) % (FLAGS.len() - 1)]] } };
-    for (group, ug) in [(P0, UG0), (P0S, UG0S), (P1, UG1), (P1, UG1A), (PN, UGN), (PC, UGC), (P2, UG2), (PU, UGU), (PAB, UGAB)] {
+    for (group, ug) in [(P0, UG0), (P0S, UG0S), (P0M, UG0M), (P1, UG1), (P1, UG1A), (PN, UGN), (PC, UGC), (P2, UG2), (PU, UGU), (PAB, UGAB)] {
         let n = group.len();
         for i in 0..n {
             let js: Vec<usize> = if deep { (0..n).collect() } else { vec![(i + 1) % n, (i + 4) % n, (i + 9) % n] };
@@ -163,15 +166,24 @@ pub fn cases(deep: bool) -> Vec<(Case, Vec<&'static [&'static str]>)> {
         // a lemma after an inductive lemma that holds: the later lemma must still be proved on its own
         "inductive-lemma: forall N$i (N$i >= 0 -> (p(N$i) -> q(N$i))). lemma: forall X (q(X) -> p(X)).", "inductive-lemma: forall N$i (N$i >= 0 -> (p(N$i) -> q(N$i))). lemma: #false.",
         "lemma: forall X (p(X) -> q(X)). inductive-lemma: forall N$i (N$i >= 0 -> (p(N$i) -> q(N$i))). inductive-lemma: forall N$i (N$i >= 0 -> (p(N$i) -> p(N$i))). lemma(forward): forall X (q(X) -> p(X)). lemma(backward): exists X (p(X) and not q(X)).", "inductive-lemma(forward): forall N$i (N$i >= 0 -> (p(N$i) -> q(N$i))). lemma(backward): forall X (p(X) -> q(X)).", "definition: forall X (d(X) <-> q(X) and not p(X)). definition: forall X (e(X) <-> d(X) or p(X)). lemma: forall X (e(X) -> q(X)).",
+        // antecedents that are not of the form N >= n: anthem may refuse them (REFUSABLE); if it accepts one, what it emits must be sound
+        "inductive-lemma: forall N$i (N$i >= 0 < N$i -> (q(N$i) -> p(N$i))).", "inductive-lemma: forall N$i (N$i >= 0 >= 0 -> (q(N$i) -> p(N$i))).", "inductive-lemma: forall N$i (N$i >= 1 != N$i -> (p(N$i) -> q(N$i))). lemma: forall X (p(X) -> q(X)).",
+        "inductive-lemma: forall N$i (0 <= N$i -> (q(N$i) -> p(N$i))).", "inductive-lemma: forall N$i (N$i > 0 -> (q(N$i) -> p(N$i))).", "inductive-lemma: forall N$i (N$i >= 0 and q(N$i) -> p(N$i)).", "inductive-lemma: forall N$i (N$i >= 0 = 0 -> (q(N$i) -> p(N$i))).",
         // (the extent of a defined predicate must be finite for the enumeration: the bodies are guarded by an atom) "lemma: forall X (p(X) <-> q(X)). lemma: #false.",
     ];
-    for (outlines, progs, ug) in [(O0, P0, UG0), (O1, P1, UG1)] {
+    // an induction variable next to a parameter of the same name and another sort, parameters before and after it, free parameters
+    const O2: &[&str] = &[
+        "inductive-lemma: forall N N$i (N$i >= 0 -> (e(N$i, N) -> r(N$i))).", "inductive-lemma: forall N$i N (N$i >= 0 -> (e(N$i, N) -> r(N$i))).", "inductive-lemma: forall N$i (N$i >= 0 -> (e(N$i, N) -> r(N$i))).",
+        "inductive-lemma: forall X N$i (N$i >= 1 -> (e(X, N$i) -> r(X))).", "inductive-lemma: forall N N$i (N$i >= 0 -> (e(N, N$i) -> r(N))). lemma: forall X Y (e(X, Y) -> r(X)).", "inductive-lemma: forall N$i N$s (N$i >= 0 -> (e(N$i, N$s) -> r(N$i))).",
+        "inductive-lemma: forall N$i (N$i >= 0 < N$i -> (e(N$i, N$i) -> r(N$i))).", "inductive-lemma: forall N N$i (N$i >= 0 -> (e(N$i, N$i) -> r(N))).",
+    ];
+    for (outlines, progs, ug) in [(O0, P0, UG0), (O1, P1, UG1), (O2, P2, UG2)] {
         for (oi, o) in outlines.iter().enumerate() {
             let n = progs.len();
             let ijs: Vec<(usize, usize)> = if deep { (0..n.min(8)).flat_map(|i| (0..n.min(8)).map(move |j| (i, j))).collect() } else { vec![(oi % n, (oi + 1) % n), ((oi * 2 + 3) % n, (oi * 2 + 3) % n), ((oi + 5) % n, oi % n)] };
             for (i, j) in ijs { k += 1; out.push((Case { left: Some(progs[i]), program: progs[j], spec: None, ug, outline: Some(o) }, flags_for(k))); }
             // pairs that are known to differ in both directions, and one that does not: a lemma that is false in a difference must not help
-            let fixed: &[(&str, &str)] = if ug == UG0 { &[("p :- q.", "p."), ("p.", "p :- q."), ("p :- q.", "p :- not not q."), ("{p} :- q.", "p :- q.")] } else { &[("p(X) :- q(X), X != 1.", "p(X) :- q(X)."), ("p(X) :- q(X).", "p(X) :- q(X), X != 1."), ("p(0) :- q(0). p(1) :- q(1).", "p(X) :- q(X), X != 1."), ("{p(X)} :- q(X).", "p(X) :- q(X).")] };
+            let fixed: &[(&str, &str)] = if ug == UG2 { &[("r(X) :- e(X, Y).", "r(X) :- e(X, X)."), ("r(X) :- e(X, X).", "r(X) :- e(X, Y)."), ("r(X) :- e(X, Y), X != Y.", "r(Y) :- e(X, Y).")] } else if ug == UG0 { &[("p :- q.", "p."), ("p.", "p :- q."), ("p :- q.", "p :- not not q."), ("{p} :- q.", "p :- q.")] } else { &[("p(X) :- q(X), X != 1.", "p(X) :- q(X)."), ("p(X) :- q(X).", "p(X) :- q(X), X != 1."), ("p(0) :- q(0). p(1) :- q(1).", "p(X) :- q(X), X != 1."), ("{p(X)} :- q(X).", "p(X) :- q(X).")] };
             for (l, r) in fixed { k += 1; out.push((Case { left: Some(l), program: r, spec: None, ug, outline: Some(o) }, flags_for(k))); }
         }
     }
@@ -182,6 +194,13 @@ fn declared_preds(p: &ReadProblem) -> BTreeSet<Pred> { p.preds.iter().cloned().c
 
 /// one side of the claim: a program (stable models) or a specification (classical models of the usable formulas)
 enum Side<'a> { Program(&'a asp::Program), Spec(&'a fol::Specification) }
+
+/// outlines that anthem may refuse (an inductive lemma whose antecedent is not literally `N >= n`); when one is accepted, the usual checks apply
+const REFUSABLE: &[&str] = &[
+    "inductive-lemma: forall N$i (N$i >= 0 < N$i -> (q(N$i) -> p(N$i))).", "inductive-lemma: forall N$i (N$i >= 0 >= 0 -> (q(N$i) -> p(N$i))).", "inductive-lemma: forall N$i (N$i >= 1 != N$i -> (p(N$i) -> q(N$i))). lemma: forall X (p(X) -> q(X)).",
+    "inductive-lemma: forall N$i (0 <= N$i -> (q(N$i) -> p(N$i))).", "inductive-lemma: forall N$i (N$i > 0 -> (q(N$i) -> p(N$i))).", "inductive-lemma: forall N$i (N$i >= 0 and q(N$i) -> p(N$i)).", "inductive-lemma: forall N$i (N$i >= 0 = 0 -> (q(N$i) -> p(N$i))).",
+    "inductive-lemma: forall N$i (N$i >= 0 < N$i -> (e(N$i, N$i) -> r(N$i))).",
+];
 
 pub fn check_case(c: &Case, flag_sets: &[&[&str]], st: &mut VStats, fails: &mut Vec<Failure>) {
     let input_desc = format!("{}{} | program `{}` | user guide `{}`{}", c.left.map(|l| format!("left `{l}`")).unwrap_or_default(), c.spec.map(|s| format!("spec `{s}`")).unwrap_or_default(), c.program, c.ug, c.outline.map(|o| format!(" | outline `{o}`")).unwrap_or_default());
@@ -221,6 +240,7 @@ pub fn check_case(c: &Case, flag_sets: &[&[&str]], st: &mut VStats, fails: &mut 
         let (rc, err, problems) = match run_verify(&all, &files) { Ok(x) => x, Err(e) => { fails.push(Failure { property: "harness", input: what, detail: e }); return; } };
         if rc != 0 {
             let panicked = rc == 101 || err.contains("panicked at");
+            if !panicked && problems.is_empty() && c.outline.is_some_and(|o| REFUSABLE.contains(&o)) { continue; }
             fails.push(Failure { property: if panicked { "C16" } else { "C02" }, input: what.clone(), detail: format!("the task is within the accepted class but anthem exits with {rc} and {} problems: {}", problems.len(), err.lines().take(3).collect::<Vec<_>>().join(" / ")) });
             if panicked { fails.push(Failure { property: "C02", input: what, detail: format!("anthem panicked: {}", err.lines().take(2).collect::<Vec<_>>().join(" / ")) }); }
             continue;
